@@ -52,9 +52,16 @@ def natListArg (s : String) : Option (List Nat) :=
 def hexListArg (s : String) : Option (List Bytes) :=
   if s == "_" then some [] else (s.splitOn ",").mapM Hex.decode
 
-/-- split `bs` at the given piece lengths; the remainder is the last piece -/
-def splitAtLens : List Nat → Bytes → List Bytes
-  | [], bs => [bs]
-  | n :: ns, bs => bs.take n :: splitAtLens ns (bs.drop n)
+/-- split `bs` at the given piece lengths (each clipped to what is left); what remains after the last length is a
+    further piece only when it is non-empty or when no length was given (so a list that covers `bs` exactly ends with
+    its own last piece; a trailing empty piece is written as a final `0`) -/
+def splitAtLensAux : List Nat → Bytes → List Bytes
+  | [], bs => if bs.isEmpty then [] else [bs]
+  | n :: ns, bs => bs.take n :: splitAtLensAux ns (bs.drop n)
+
+def splitAtLens (lens : List Nat) (bs : Bytes) : List Bytes :=
+  match lens with
+  | [] => [bs]
+  | _ => splitAtLensAux lens bs
 
 end Cx
